@@ -107,6 +107,7 @@ type FuncEnc struct {
 	segatLemma       bool
 	Cache            map[string]any
 	curRet           *ssa.Return
+	summarized       map[*ssa.BasicBlock]bool
 	ErrFormats       map[string]string // fmt.Errorf format literal -> literal symbol (ghost errfmt)
 	BodyErrs         []string          // "request body could not be read/decoded" conditions seen so far
 }
@@ -151,6 +152,9 @@ func (e *FuncEnc) define(prefix, sort, expr string) string {
 func (e *FuncEnc) oblige(class, detail, formula string, pos token.Pos) *Obligation {
 	if formula == "true" {
 		return nil
+	}
+	if e.curReach == "false" {
+		return nil // unreachable (e.g. body of a summarised loop)
 	}
 	key := class + "/" + detail
 	n := e.classCount[key]
@@ -545,6 +549,7 @@ func (e *FuncEnc) init() {
 	e.stableFV = map[*ssa.FreeVar]string{}
 	e.strView = map[ssa.Value]strView{}
 	e.Cache = map[string]any{}
+	e.summarized = map[*ssa.BasicBlock]bool{}
 	e.ErrFormats = map[string]string{}
 	e.deferReach = map[*ssa.Defer]string{}
 }
@@ -672,6 +677,10 @@ func (e *FuncEnc) encodeBlock(b *ssa.BasicBlock) {
 		e.cur = e.mergeStates(b, preds)
 	}
 	li := e.loops[b]
+	if li != nil && e.W != nil && e.W.LoopSummary != nil && e.W.LoopSummary(e, li) {
+		e.summarized[b] = true
+		li = nil
+	}
 	if li != nil {
 		// loop header: entry edges must establish the invariants -> checked at
 		// the predecessors' ends (below, in terminators). Here: havoc.
@@ -769,6 +778,12 @@ func (e *FuncEnc) mergeStates(b *ssa.BasicBlock, preds []*ssa.BasicBlock) *state
 
 func (e *FuncEnc) encodePhi(b *ssa.BasicBlock, phi *ssa.Phi, preds []*ssa.BasicBlock, li *loopInfo) {
 	sortS := e.D.SortOf(phi.Type())
+	if li == nil && e.summarized[b] {
+		s := e.newSym("phi_"+mangle(phi.Comment), sortS)
+		e.val[phi] = s
+		e.paramLikeFacts(s, phi.Type())
+		return
+	}
 	if li != nil {
 		s := e.newSym("phi_"+mangle(phi.Comment), sortS)
 		e.val[phi] = s
@@ -812,13 +827,25 @@ func (e *FuncEnc) finishBlock(b *ssa.BasicBlock, cond string) {
 	case 1:
 		e.edge[[2]int{b.Index, b.Succs[0].Index}] = e.curReach
 	case 2:
+		if e.summarized[b] {
+			// the loop was replaced by its summary: control leaves it at once
+			lp := e.loops[b]
+			for _, s := range b.Succs {
+				if lp.body[s] {
+					e.edge[[2]int{b.Index, s.Index}] = "false"
+				} else {
+					e.edge[[2]int{b.Index, s.Index}] = e.curReach
+				}
+			}
+			break
+		}
 		e.edge[[2]int{b.Index, b.Succs[0].Index}] = e.define(fmt.Sprintf("edge%d_%d", b.Index, b.Succs[0].Index), "Bool", and(e.curReach, cond))
 		e.edge[[2]int{b.Index, b.Succs[1].Index}] = e.define(fmt.Sprintf("edge%d_%d", b.Index, b.Succs[1].Index), "Bool", and(e.curReach, not(cond)))
 	}
 	// loop invariants on edges into headers
 	for i, s := range b.Succs {
 		li := e.loops[s]
-		if li == nil {
+		if li == nil || e.summarized[s] {
 			continue
 		}
 		_ = i
